@@ -3,6 +3,7 @@ From Coq Require Import List QArith Qcanon.
 From AmiscV Require Import Field QcInst Lagr Fpi Transf.
 
 Definition q_refine1 := @refine1 Qc qc_ops.
+Definition q_refine1_incremental := @refine1_incremental Qc qc_ops.
 Definition q_basis1 := @basis1 Qc qc_ops.
 Definition q_dbasis1 := @dbasis1 Qc qc_ops.
 Definition q_tpredict := @tpredict Qc qc_ops.
@@ -32,4 +33,13 @@ Definition c16_stored := q_normalize [Minmax (qc_make 2 1) (qc_make 4 1) (qc_mak
 Definition c16_decoded_later := q_denormalize [Minmax (qc_make 2 1) (qc_make 4 1) (qc_make 0 1) (qc_make 1 1)]
                            (mkhyper (Some (qc_make (-10) 1, qc_make 20 1)) None) c16_stored.
 Definition c16_original := qc_make 3 1.
+(* C04: a 1-d grid [0, 1] built under the domain (0, 4) (capacity 1) and refined with the node 1/2 after the domain became
+   (0, 8) (capacity 2), data of t^2 on the three nodes, evaluated at 1/4: the former incremental update versus the
+   recomputation the code does now; the interpolation polynomial gives 1/16 *)
+Definition c04_grid0 := q_refine1 (qc_make 1 1) None [qc_make 0 1; qc_make 1 1].
+Definition c04_incremental := q_refine1_incremental (qc_make 2 1) (Some c04_grid0) [qc_make 0 1; qc_make 1 1; qc_make 1 2].
+Definition c04_recomputed := q_refine1 (qc_make 2 1) (Some c04_grid0) [qc_make 0 1; qc_make 1 1; qc_make 1 2].
+Definition c04_predict (st : list Qc * list Qc) : Qc :=
+  q_tpredict [(qc_make 0 1, st)] [qc_make 1 4] [qc_make 0 1; qc_make 1 1; qc_make 1 4].
+Definition c04_true := qc_make 1 16.
 Close Scope Z_scope.
